@@ -643,6 +643,33 @@ func readHeaderRules(c *Ctx) {
 			first = calleeKey(info, calls[0])
 		}
 		R.Check(first == "casblob.readHeader", "R08d", c.Cfg+key+":starts-with-readHeader", c.P.Pos(f2.Decl.Pos()), key+" validates the header before anything else", "first call is "+first)
+		// path rule: a reader is handed out only after readHeader succeeded
+		var hb *Base
+		nsucc := 0
+		hb = NewBase(Hooks{
+			Call: func(x *Exec, call *ast.CallExpr, lhs []ast.Expr, s St) ([]St, bool) {
+				if calleeKey(x.Fn.Info, call) == "casblob.readHeader" && len(lhs) == 2 {
+					return hb.ForkErr(x, lhs, 1, s, func(ok St) St { return ok.Set("hdr", "ok") }, nil), true
+				}
+				if len(lhs) >= 1 {
+					if tv := x.Fn.Info.TypeOf(lhs[len(lhs)-1]); tv != nil && tv.String() == "error" {
+						return hb.ForkErr(x, lhs, len(lhs)-1, s, nil, nil), true
+					}
+				}
+				return nil, false
+			},
+			Exit: func(x *Exec, ret *ast.ReturnStmt, s St) {
+				if ret == nil || RetNil(x.Fn, s, 0) == "nil" || RetNil(x.Fn, s, 1) == "nonnil" {
+					return
+				}
+				nsucc++
+				R.Check(s.Get("hdr") == "ok", "R08d", fmt.Sprintf("%s%s:return#%d:header-validated", c.Cfg, key, returnOrdinal(x.Fn, ret)), c.P.Pos(ret.Pos()),
+					"a reader is returned only on paths where readHeader accepted the file's header", "a reader can be returned although readHeader failed or was not called", x.Trace()...)
+			},
+		})
+		hx := NewExec(c.P.FlowOf(f2), hb)
+		hx.Run(newSt())
+		R.Check(nsucc > 0, "R08d", c.Cfg+key+":success-returns", "", "success returns of "+key+" were found", "none found")
 	}
 	// a failed read drops the entry
 	if fa := c.P.MustFunc(R, "R08d", kAvail); fa != nil {
